@@ -60,7 +60,7 @@ func popWorker(args map[string]any, fn func(keyName string, count int) (values [
 	return
 }
 
-func popMultiKeyWorker(ctx *cmdContext, args map[string]any, fn func(keyName string, count int) (values [][]byte, err *respErrorString)) (output respValue) {
+func popMultiKeyWorker(ctx *cmdContext, args map[string]any, left bool) (output respValue) {
 	timeout := args["timeout"].(float64)
 	keyNamesArg := args["key"].([]any)
 
@@ -73,16 +73,12 @@ func popMultiKeyWorker(ctx *cmdContext, args map[string]any, fn func(keyName str
 	output = blockOnListChangeMultiKey(
 		ctx, keyNames, timeoutNs,
 		func() (output respValue) {
-			for _, keyName := range keyNames {
-				values, fnErr := fn(keyName, 1)
-				if fnErr != nil {
-					output.data = *fnErr
-					return
-				} else if len(values) == 1 {
-					strList := []string{keyName, string(values[0])}
-					output = nativeValueToResp(strList)
-					return
-				}
+			// the keys are examined in order as one atomic step
+			keyName, value, fnErr := ctx.dsc.popFirst(keyNames, left)
+			if fnErr != nil {
+				output.data = *fnErr
+			} else if value != nil {
+				output = nativeValueToResp([]string{keyName, string(value)})
 			}
 			return
 		})
@@ -414,12 +410,12 @@ func fnBLMPop(ctx *cmdContext, args map[string]any) (output respValue, err error
 }
 
 func fnBLPop(ctx *cmdContext, args map[string]any) (output respValue, err error) {
-	output = popMultiKeyWorker(ctx, args, ctx.dsc.lpop)
+	output = popMultiKeyWorker(ctx, args, true)
 	return
 }
 
 func fnBRPop(ctx *cmdContext, args map[string]any) (output respValue, err error) {
-	output = popMultiKeyWorker(ctx, args, ctx.dsc.rpop)
+	output = popMultiKeyWorker(ctx, args, false)
 	return
 }
 
